@@ -27,7 +27,7 @@ var families = map[string]family{
 	"c01": {name: "c01", wFeedCall: 6, wFeedNote: 3, wFeedBatch: 8, wFeedInvalid: 4, wFeedReply: 1, wFeedRaw: 1, wGate: 12, wBuiltin: 1,
 		idPool: []string{"1", "2", "3", `"a"`, "4", "5"}, Ks: []int{1, 2, 3, 8}, push: []bool{false, false, true}, builtin: []bool{true, false}, steps: 18},
 	"c03": {name: "c03", wFeedCall: 5, wFeedNote: 8, wFeedBatch: 6, wFeedInvalid: 1, wGate: 12, wCancel: 1, wPush: 1,
-		idPool: []string{"1", "2", "3", "4", "5", "6"}, Ks: []int{2, 4, 8}, push: []bool{false, true}, builtin: []bool{true}, steps: 20},
+		idPool: []string{"1", "2", "3", "4", "5", "6"}, Ks: []int{1, 2, 4, 8}, push: []bool{false, true}, builtin: []bool{true}, steps: 20},
 	"c06": {name: "c06", wFeedCall: 4, wFeedNote: 2, wFeedBatch: 10, wGate: 12, wCancel: 4, wBuiltin: 2,
 		idPool: []string{"1", "2", "3", "4", "5", "6", "7", "8"}, Ks: []int{1, 2, 3, 5}, push: []bool{false}, builtin: []bool{true}, steps: 20},
 	"c07": {name: "c07", wFeedCall: 10, wFeedNote: 1, wFeedBatch: 5, wFeedInvalid: 2, wGate: 10, wCancel: 6, wBuiltin: 1,
@@ -134,6 +134,15 @@ func (s *scen) pickParked(n int) int {
 // sched lets some of the parked goroutines run: all of them (drain) under the
 // fifo policy, a random number under the random policy.
 func (s *scen) sched() {
+	if s.policy == "race" {
+		// mostly keep racing; now and then let everything settle
+		if s.g.chance(1, 4) {
+			s.r.quiet = true
+			s.r.settleEnv()
+			s.r.quiet = false
+		}
+		return
+	}
 	if s.policy == "fifo" {
 		s.r.drain(s.pickParked)
 		return
@@ -215,7 +224,10 @@ func (s *scen) step() {
 		acts = append(acts, act{f.wGate, func() {
 			p := pick(g, started)
 			if g.chance(1, 4) {
-				r.gate(p, gateMsg{code: pick(g, []int{-32000, 5, -32602, -32097}), msg: "handler says no"})
+				r.gate(p, gateMsg{code: pick(g, []int{-32000, 5, -32602, -32097, -32600, -32700, -32601, -32096}), msg: "handler says no"})
+			} else if g.chance(1, 12) {
+				// a result that json.Marshal rejects (a RawMessage that is not one JSON value)
+				r.gate(p, gateMsg{res: pick(g, []string{`{"a":`, "1 2", "garbage", `{"x":1}{"y":2}`, `[1,`, "\x01"})})
 			} else {
 				r.gate(p, gateMsg{res: pick(g, []string{"true", `{"r":[1,2]}`, "null", `"ok"`, "0"})})
 			}
@@ -243,6 +255,8 @@ func (s *scen) step() {
 // let all handlers return, stop (or close), deliver the reader its error, wait.
 func (s *scen) epilogue(restart bool) {
 	r, g := s.r, s.g
+	r.quiet = true
+	r.settleEnv()
 	r.drain(s.pickParked)
 	for {
 		r.mu.Lock()
@@ -316,11 +330,21 @@ func runServerScenario(t *testing.T, fam string, seed uint64, idx int, out *bufi
 	policy := "random"
 	if idx%3 == 0 {
 		policy = "fifo"
+	} else if idx%6 == 5 {
+		policy = "race"
 	}
 	synctest.Test(t, func(t *testing.T) {
 		r := newSrvRun(cfg, out)
 		s := &scen{r: r, g: g, f: f, policy: policy}
-		jrpc2.VerifSetHook(r.sc.point)
+		if policy == "race" {
+			r.race = true
+			r.log.direct = true
+			r.sc.on = false
+			r.perturb.Store(seed*7919 + uint64(idx))
+			jrpc2.VerifSetHook(r.racePoint)
+		} else {
+			jrpc2.VerifSetHook(r.sc.point)
+		}
 		defer jrpc2.VerifSetHook(nil)
 		r.log.item("scenario\t%s\t%d\t%d\t%s", fam, seed, idx, policy)
 		r.start()
